@@ -29,8 +29,9 @@ CLAIMS = {
  "C04": ("Coq theorems for every state, batch and asset: AddToBalance / SubFromBalance change the supply by exactly their amount and nothing else does; recording a batch "
          "changes each asset's supply by exactly the sum of its transactions' events (transfers: minus outputs to the burn address; conversions: -input, +floor(in*src/dst); "
          "bank-era PEG requests: input only); a transfer whose outputs add up to its input creates and destroys nothing; rewards and burns credit exactly the decided "
-         "amounts to the named addresses. Tie: balances (whose column sums are the supplies) compared with the node block by block on chains of every era.", "section 6 C04",
-         "A single block-level supply equation over all enumerated events is not stated as one theorem; it is covered piecewise and by the correspondence. "),
+         "amounts to the named addresses; and over EVERY chain (without conversions into PEG, distinct batch hashes): each balance cell outside the three special addresses equals "
+         "the summed effect of the recorded executed history rows -- no value without a recorded protocol event. Tie: balances (whose column sums are the supplies) compared with the node block by block on chains of every era.", "section 6 C04",
+         "The chain-level accounting theorem excludes conversions into PEG (legacy bank payout: covered piecewise and by the bank chains) and the three special addresses (one-time adjustments: C15). "),
  "C05": ("Coq theorems over all byte strings / entries with signature verification as a Section oracle: an accepted entry carries exactly one RCD whose hash is the input "
          "address, of a type enabled at that height, a signature verified over exactly salt||chain||content (message composition injective), salt within +-12h; every "
          "structural failure class is rejected; for RCD-1 one verified triple determines the entry. Model tied to fat2.NewTransactionBatch by differential runs on real "
@@ -80,7 +81,8 @@ CLAIMS = {
          "and refunds.", "section 6 C16", "Known finding: mixed bank-era batches (closed era). "),
  "C17": ("Coq theorems: a rejected batch gets exactly its negative code and moves no balance; effects only with a complete execution; whenever a batch is recorded its history rows carry the "
          "credited amounts, its status says the executing height and EVERY balance cell moves by exactly what those rows stand for (arrival path, holding path, and the coinbase-style "
-         "writers: rewards, burns, developer and staking payouts); paging by LIMIT/OFFSET over a fixed order "
+         "writers: rewards, burns, developer and staking payouts); for EVERY chain without conversions into PEG and with distinct batch hashes, replaying the recorded history "
+         "reproduces every balance outside the three special addresses (replay_accounts); paging by LIMIT/OFFSET over a fixed order "
          "returns every action exactly once. Tie: history, lookup, status, holding and relation rows compared with the node; executable oracle 'replaying the recorded "
          "history reproduces every balance' on the node's dumps; the real API server (get-transactions by hash/address/height/txid with every filter and explicit offsets, "
          "get-transaction, get-transaction-status, get-pegnet-balances) walked page by page and compared with plain SELECTs over a read-only connection.", "section 6 C17",
